@@ -656,6 +656,15 @@ bool Interpret::getAssignment() const {
 }
 
 namespace { // Helper for get-value command
+// a quoted symbol is echoed with its quotes
+void printAstSymbol(ASTNode const & symbolNode) {
+    if (symbolNode.getType() == QSYM_T) {
+        std::cout << '|' << symbolNode.getValue() << '|';
+    } else {
+        std::cout << symbolNode.getValue();
+    }
+}
+
 void printAstTermNode(ASTNode const & astNode) {
     ASTType t = astNode.getType();
     if (t == TERM_T) {
@@ -663,14 +672,14 @@ void printAstTermNode(ASTNode const & astNode) {
         std::cout << name;
     } else if (t == QID_T) {
             ASTNode const * symbolNode = (*(astNode.children->begin()));
-            char const * name = symbolNode->getValue();
-            std::cout << name;
+            printAstSymbol(*symbolNode);
     } else if ( t == LQID_T ) {
         // Multi-argument term
         auto node_iter = astNode.children->begin();
-        const char* name = (**node_iter).getValue(); node_iter++;
+        ASTNode const & headNode = **node_iter; node_iter++;
         std::cout << "(";
-        std::cout << name << " ";
+        printAstSymbol(headNode);
+        std::cout << " ";
         bool first = true;
         for (; node_iter != astNode.children->end(); node_iter++) {
             if (not first) {
